@@ -37,29 +37,18 @@ theorem src_ifm_blockdepth_eq_model (row : Gen.Shram.Row) (ifmDepth ifmBits : Na
   unfold ifmBlockDepth
   have h4 := fun a => SrcNumericUtil.round_up_nat a 4 (by decide)
   have hu' := fun a => SrcNumericUtil.round_up_nat a row.ifmUblock.depth hu
+  have hmin : ∀ c : Nat, min (ifmDepth : Int) (c : Int) = ((min ifmDepth c : Nat) : Int) := fun c => by omega
   by_cases h16 : ifmBits = 16
   · subst h16
-    by_cases hd : ifmDepth ≤ 16
-    · have hm : min ifmDepth 16 = ifmDepth := by omega
-      py_exec [_ifm_blockdepth, if_pos, if_neg, hm]
-      exact h4 ifmDepth
-    · have hm : min ifmDepth 16 = 16 := by omega
-      py_exec [_ifm_blockdepth, if_pos, if_neg, hm]
-      exact h4 16
+    py_exec [_ifm_blockdepth, if_pos, if_neg]
+    rw [show (16 : Int) = ((16 : Nat) : Int) from rfl, hmin]
+    exact h4 _
   · cases isPartKernel
-    · by_cases hd : ifmDepth ≤ 32
-      · have hm : min ifmDepth 32 = ifmDepth := by omega
-        py_exec [_ifm_blockdepth, if_pos, if_neg, hm, h16]
-        exact hu' ifmDepth
-      · have hm : min ifmDepth 32 = 32 := by omega
-        py_exec [_ifm_blockdepth, if_pos, if_neg, hm, h16]
-        exact hu' 32
-    · by_cases hd : ifmDepth ≤ 16
-      · have hm : min ifmDepth 16 = ifmDepth := by omega
-        py_exec [_ifm_blockdepth, if_pos, if_neg, hm, h16]
-        exact hu' ifmDepth
-      · have hm : min ifmDepth 16 = 16 := by omega
-        py_exec [_ifm_blockdepth, if_pos, if_neg, hm, h16]
-        exact hu' 16
+    · py_exec [_ifm_blockdepth, if_pos, if_neg, h16]
+      rw [show (32 : Int) = ((32 : Nat) : Int) from rfl, hmin]
+      exact hu' _
+    · py_exec [_ifm_blockdepth, if_pos, if_neg, h16]
+      rw [show (16 : Int) = ((16 : Nat) : Int) from rfl, hmin]
+      exact hu' _
 
 end VelaVerif.Props.C15Src
